@@ -49,8 +49,9 @@ def judgeScale : P Verdict := do
   let m := Vec.scale a v
   let p := r.dim == v.dim && (!v.wf || (r.wf &&
       v.entries.all (fun e => feq (denF r.entries e.idx) (e.val * a)) &&
-      r.entries.all (fun e => v.entries.any (·.idx == e.idx)) &&
-      r.entries.all (fun e => e.val != 0)))
+      r.entries.all (fun e => v.entries.any (·.idx == e.idx))))
+  -- (whether a zero product is dropped or stays stored is not part of the property: both denote the same dense
+  --  vector; the bit-level comparison with the model below still sees it)
   let c := r.dim == m.dim && entriesEq (nz r.entries) (nz m.entries)
   pure { prop := p, corr := c, bit := some (entriesBitEq r.entries m.entries),
          msg := if p && c then "" else s!"model={showVec m}" }
